@@ -53,7 +53,57 @@ pub struct InDwarf {
 
 /// synthesise DWARF for `wasm`: one subprogram per function, one row per instruction;
 /// `span` = how many consecutive functions share one line sequence (1 = a sequence per function)
+/// In a version-5 line program written by gimli, make every `DW_LNS_set_file 2` name file 0
+/// instead (the primary source file, a valid index in DWARF 5 that `gimli::write` itself never
+/// produces). Returns how many operands were patched.
+fn patch_file0(d: &mut [u8]) -> usize {
+    if d.len() < 20 || u16::from_le_bytes([d[4], d[5]]) != 5 {
+        return 0;
+    }
+    let unit_end = 4 + u32::from_le_bytes([d[0], d[1], d[2], d[3]]) as usize;
+    let header_len = u32::from_le_bytes([d[8], d[9], d[10], d[11]]) as usize;
+    let opcode_base = d[17] as usize;
+    let lengths: Vec<u8> = d[18..18 + opcode_base - 1].to_vec();
+    let mut p = 12 + header_len;
+    let mut patched = 0;
+    let uleb = |d: &[u8], p: &mut usize| -> u64 {
+        let (mut v, mut sh) = (0u64, 0);
+        loop {
+            let b = d[*p];
+            *p += 1;
+            v |= ((b & 0x7f) as u64) << sh;
+            sh += 7;
+            if b & 0x80 == 0 {
+                return v;
+            }
+        }
+    };
+    while p < unit_end.min(d.len()) {
+        let op = d[p] as usize;
+        p += 1;
+        if op == 0 {
+            let len = uleb(d, &mut p) as usize;
+            p += len;
+        } else if op >= opcode_base {
+            // special opcode: no operands
+        } else if op == 9 {
+            p += 2; // DW_LNS_fixed_advance_pc: one u16
+        } else {
+            for k in 0..lengths[op - 1] {
+                if op == 4 && k == 0 && d[p] == 2 {
+                    d[p] = 0;
+                    patched += 1;
+                }
+                uleb(d, &mut p);
+            }
+        }
+    }
+    patched
+}
+
 pub fn synthesize(wasm: &[u8], a: &AMod, version: u16, span: usize) -> (Vec<u8>, InDwarf) {
+    // version 55 = DWARF 5 with rows that name file index 0
+    let (version, file0) = if version == 55 { (5, true) } else { (version, false) };
     let encoding = Encoding { format: Format::Dwarf32, version, address_size: 4 };
     let mut dwarf = write::Dwarf::new();
     let comp_dir = LineString::new(&b"/verif"[..], encoding, &mut dwarf.line_strings);
@@ -114,7 +164,11 @@ pub fn synthesize(wasm: &[u8], a: &AMod, version: u16, span: usize) -> (Vec<u8>,
     sections
         .for_each(|id, data| -> Result<(), ()> {
             if !data.slice().is_empty() {
-                append_custom(&mut out, id.name(), data.slice());
+                let mut bytes = data.slice().to_vec();
+                if file0 && id.name() == ".debug_line" {
+                    patch_file0(&mut bytes);
+                }
+                append_custom(&mut out, id.name(), &bytes);
             }
             Ok(())
         })
@@ -432,7 +486,7 @@ pub fn main(seed: u64, tier: &str, only: Option<&str>) {
         g.names = false;
         g.producers = false;
         let (wasm, _) = gen::gen_valid(&mut rng, &g);
-        let version = if case % 2 == 0 { 4 } else { 5 };
+        let version = if case % 2 == 0 { 4 } else if case % 6 == 5 { 55 } else { 5 };
         let span = [1usize, 1, 2, 3][(case / 2) % 4];
         let v = [Variant::Unchanged, Variant::Unchanged, Variant::Inserted, Variant::Gc][(case / 3) % 4];
         run_case(&format!("d{}", case), &wasm, version, span, v, &mut stats);
